@@ -80,7 +80,9 @@ where
     /// # Safety
     /// Safe for all cluster topology decisions as it's based on immutable configuration.
     async fn is_single_node_cluster(&self) -> bool {
-        self.initial_cluster_size().await == 1
+        // A node bootstrapped alone may have been expanded since (AddNode + promotion):
+        // once another voter exists it must win a real majority vote like any other node.
+        self.initial_cluster_size().await == 1 && self.voters().await.is_empty()
     }
 
     /// All pending active nodes in Active state
